@@ -14,6 +14,7 @@ import (
 	"github.com/libp2p/go-libp2p/core/crypto"
 	"github.com/libp2p/go-libp2p/core/host"
 	"github.com/libp2p/go-libp2p/core/peer"
+	"github.com/libp2p/go-libp2p/core/protocol"
 	"google.golang.org/protobuf/proto"
 	"google.golang.org/protobuf/types/known/anypb"
 
@@ -266,7 +267,24 @@ func VerifC13Bcast() {
 			sigs[i] = pool[k]
 		}
 		before := mem.delivered
-		_, _, err := mem.c.srv.handleMessage(ctx, vPeerID[0], &pb.BCastMessage{Id: id, Message: vAny(tag), Signatures: sigs})
+		var err error
+		if vrt.Param("viareg") == 1 {
+			// the message arrives on a stream: the request object comes from the factory the member's server registered
+			// for the protocol, and the handler is the one registered for it
+			mk, h := vRegistered(mem, protocolIDMsg)
+			req := mk()
+			other := mk()
+			vrt.Assert("every stream gets its own request object", !vrt.SameObject(req, other))
+			bm, ok := req.(*pb.BCastMessage)
+			vrt.Assert("the message protocol's request type is BCastMessage", ok)
+			bm.Id, bm.Message, bm.Signatures = id, vAny(tag), sigs
+			if om, ok := other.(*pb.BCastMessage); ok { // a second stream is being read while the first is handled
+				om.Id, om.Message, om.Signatures = "X", vAny(tag+1), nil
+			}
+			_, _, err = h(ctx, vPeerID[0], req)
+		} else {
+			_, _, err = mem.c.srv.handleMessage(ctx, vPeerID[0], &pb.BCastMessage{Id: id, Message: vAny(tag), Signatures: sigs})
+		}
 		if err == nil {
 			vrt.Assert("delivery calls the callback exactly once with the delivered id and payload", mem.delivered == before+1 && mem.gotID == id && mem.gotTag == tag)
 		} else {
@@ -312,6 +330,21 @@ func VerifC13Bcast() {
 		vrt.Reach("both delivered the same id")
 	}
 	vrt.Reach("end")
+}
+
+// vRegistered: the request factory and handler the member's server registered for a protocol (p2p.RegisterHandler).
+// One registry serves all members of the harness (registrations are keyed by protocol id, and every member registers the
+// same two protocols), so the handler is taken from the member's own server where the registry's is another member's.
+func vRegistered(mem *vMember, pid protocol.ID) (func() proto.Message, p2p.HandlerFunc) {
+	a, b := vrt.Registered("p2p.RegisterHandler", string(pid))
+	mk, ok1 := a.(func() proto.Message)
+	_, ok2 := b.(p2p.HandlerFunc)
+	vrt.Assert("the server registered a request factory and a handler for the protocol", ok1 && ok2)
+	h := p2p.HandlerFunc(mem.c.srv.handleMessage)
+	if pid == protocolIDSig {
+		h = mem.c.srv.handleSigRequest
+	}
+	return mk, h
 }
 
 // vAdvSign signs with the faulty sender's own key (real k1util natively; ideal token under the engine).
